@@ -248,10 +248,22 @@ class JGen(sg.Gen):
             self.kill(h)
         self.hist.append((wg.M, []))
         stale = [h for h in self.dead[-3:]]
+        fresh = []
         for _ in range(rng.randint(1, 3)):
             self.hist.append((wg.C, self.comps(3)))
             self.hot.append(self.nh)
+            fresh.append(self.nh)
             self.created(1)
+        if stale and fresh and self.regs and rng.random() < 0.5:
+            # the exclusive restricted view looks the new occupants and the stale handles of the same indices up
+            # alternately, mutably (a lookup must not be answered from what the previous one found)
+            others = []
+            for n in fresh[:2]:
+                for st in stale[:2]:
+                    others += [n, st]
+            sid = rng.choice(self.regs)
+            d = self.delta(sid) | 1
+            self.hist.append((JOIN, [K_LEND, rng.choice([-1, -2]), 1, M_RESTR, sid, 1, 2, rng.randrange(2), d, len(others)] + others))
         # the stale handles looked up at once through lending joins: with members that bound the join, and with
         # optional / negated members only (nothing but the aliveness test stands between the handle and the successor)
         for h in stale:
